@@ -12,6 +12,7 @@ import LoomVerif.Model.Render
 import LoomVerif.Model.AtomicRun
 import LoomVerif.Spec.StdAtomic
 import LoomVerif.Oracle.SCEnum
+import LoomVerif.Oracle.SCEnumV
 import LoomVerif.Oracle.RC11Enum
 
 open LoomVerif
@@ -128,7 +129,7 @@ partial def scMain (maxStates : Nat) : IO Unit := do
   IO.println s!"PROG {line}"
   match Prog.parse line with
   | some prog =>
-    let r := SC.explore prog maxStates
+    let r := SC.exploreV prog maxStates
     for o in r.outcomes do IO.println s!"OUT {o.render}"
     IO.println s!"DONE {r.states} {r.transitions} {if r.capped then "capped" else "ok"}"
   | none => IO.println "DONE 0 0 parseError"
